@@ -581,6 +581,16 @@ impl Mode for StepMode {
                             emit(instance(form, &mut rng, opt, &none).line());
                         }
                     }
+                    // (c') C01 / C05: the same with non-zero upper bytes in the address registers (the operand address is
+                    //      the low 24 bits; the register itself must still change by exactly the operand size)
+                    if (prop == "C01" || prop == "C05") && !opt.wild_addr {
+                        let wild = GenOpt { wild_addr: true, ..opt };
+                        for _ in 0..(if quick { 100 } else { 2000 }) {
+                            if mine(ctx) {
+                                emit(instance(form, &mut rng, wild, &none).line());
+                            }
+                        }
+                    }
                     // (d) immediates / bit numbers / conditions / small absolute fields: every value
                     for l in ['i', 'c'] {
                         if let Some(n) = form.fields.get(&l) {
@@ -797,6 +807,24 @@ impl StepMode {
     /// C05: 16 conditions x 256 CCR x both forms, all even 8-bit displacements
     fn gen_branch_table(&self, ctx: &Ctx, forms: &[Form], rng: &mut Rng, emit: &mut dyn FnMut(String)) {
         let mut idx: u64 = 0;
+        for form in forms.iter().filter(|f| f.name == "BSR_D16" || f.name == "BSR_D8") {
+            let ds: Vec<u64> = if form.name == "BSR_D16" {
+                vec![0, 2, 0x7e, 0x80, 0xfe, 0x100, 0x7ffc, 0x7ffe, 0x8000, 0x8002, 0xff00, 0xff80, 0xfffc, 0xfffe]
+            } else {
+                vec![0, 2, 0x7c, 0x7e, 0x80, 0x82, 0xfc, 0xfe]
+            };
+            for d in ds {
+                for _ in 0..4 {
+                    idx += 1;
+                    if !ctx.mine(idx) {
+                        continue;
+                    }
+                    let mut fixed = BTreeMap::new();
+                    fixed.insert('x', d);
+                    emit(instance(form, rng, PLAIN, &fixed).line());
+                }
+            }
+        }
         for form in forms.iter().filter(|f| f.name.starts_with("BCC_")) {
             for cnd in 0..16u64 {
                 for ccr in 0..256u32 {
@@ -809,6 +837,23 @@ impl StepMode {
                     let mut c = instance(form, rng, PLAIN, &fixed);
                     c.ccr = ccr as u8;
                     emit(c.line());
+                }
+            }
+            if form.name == "BCC_D16" {
+                // boundary 16-bit displacements (sign change, extremes, around zero), taken and not taken
+                for d in [0u64, 2, 4, 0x7e, 0x80, 0xfe, 0x100, 0x7ffc, 0x7ffe, 0x8000, 0x8002, 0x8004, 0xff00, 0xff7e, 0xff80, 0xfffc, 0xfffe, 0x4000, 0xc000] {
+                    for cnd in [0u64, 1, 6, 7, 4, 5] {
+                        for _ in 0..3 {
+                            idx += 1;
+                            if !ctx.mine(idx) {
+                                continue;
+                            }
+                            let mut fixed = BTreeMap::new();
+                            fixed.insert('c', cnd);
+                            fixed.insert('x', d);
+                            emit(instance(form, rng, PLAIN, &fixed).line());
+                        }
+                    }
                 }
             }
             if form.name == "BCC_D8" {
@@ -1190,7 +1235,8 @@ impl StepMode {
                 if (w0 + policy + off) % stride != 0 && !quick {
                     continue;
                 }
-                if quick && (w0 * 3 + policy + off) % stride != 0 {
+                // quick: every first word exactly once, the continuation policy rotating with the word and the seed
+                if quick && (w0 + off) % 3 != policy {
                     continue;
                 }
                 let tail: [u16; 4] = match policy {
